@@ -91,8 +91,18 @@ impl<const N: usize> SecretKey<N> {
 
     pub(crate) fn gen_b0(seed: [u8; 32]) -> [Polynomial<i16>; 4] {
         let mut rng: StdRng = SeedableRng::from_seed(seed);
-        let (f, g, capital_f, capital_g) = ntru_gen(N, &mut rng);
-        [g, -f, capital_g, -capital_f]
+        loop {
+            let (f, g, capital_f, capital_g) = ntru_gen(N, &mut rng);
+
+            // retry unless all polynomials fit the fixed-width secret key encoding
+            let fits = |p: &Polynomial<i16>, polynomial_index: usize| {
+                let bound = (1i16 << (Self::field_element_width(N, polynomial_index) - 1)) - 1;
+                p.coefficients.iter().all(|c| -bound <= *c && *c <= bound)
+            };
+            if fits(&f, 0) && fits(&g, 1) && fits(&capital_f, 2) && fits(&capital_g, 2) {
+                return [g, -f, capital_g, -capital_f];
+            }
+        }
     }
 
     pub(crate) fn from_b0(b0: [Polynomial<i16>; 4]) -> Self {
